@@ -19,6 +19,9 @@ RULE = ("ALL sequences of <= L operations (L=5 quick, 7 thorough) over {open "
         "inside [0, n), programming an FMMU that is live for another "
         "mapping is a violation, opening with none free raises and changes "
         "nothing, closing frees exactly its own FMMU and deactivates it. "
+        "Plus seeded histories of 2-4 concurrent tasks (sync groups sharing "
+        "the terminal) opening, holding and closing mappings at random "
+        "offsets: no FMMU is given to a task while another still uses it. "
         "a case = one sequence; non-trivial = at least two mappings live at "
         "some point")
 ASSUMPTIONS = ["a mapping that fails although some FMMU is free is not a "
@@ -29,7 +32,9 @@ MIN_EVALUATIONS = {"quick": 500, "thorough": 10000}
 def plan(tier, seed):
     L = 5 if tier == "quick" else 7
     return [dict(n=n, L=L, first=f) for n in (1, 2, 3, 4)
-            for f in ("R", "W")]
+            for f in ("R", "W")] + [
+        dict(n=n, concurrent=True, seed=seed,
+             count=150 if tier == "quick" else 3000) for n in (1, 2, 3, 4)]
 
 
 def sequences(L, first):
@@ -160,9 +165,107 @@ def check_trace(n, trace):
     return None, maxlive
 
 
+def run_concurrent(n, rng):
+    """2-4 tasks (think: sync groups sharing the terminal) open mappings at
+    seeded offsets, hold them and close them; returns the merged event list
+    (FMMU register writes seen by the terminal + enter/exit of each task)"""
+    t = bus.SimTerminal("T", station=9, fmmus=n)
+    b = bus.Bus([t])
+    ntask = rng.randint(2, 4)
+    plan_ = [dict(write=rng.random() < 0.4, start=rng.randint(0, 4),
+                  hold=rng.randint(0, 6), logical=0x20000 + 0x1000 * k)
+             for k in range(ntask)]
+
+    async def main(loop):
+        ec = EtherCat("vf")
+        bus.attach(ec, loop, b)
+        term = Terminal(ec)
+        term.position = 9
+        term.fmmu_used = [None] * n
+        term.pdo_in_off, term.pdo_in_sz = 0x1100, 6
+        term.pdo_out_off, term.pdo_out_sz = 0x1000, 4
+
+        async def user(k, p):
+            for _ in range(p["start"]):
+                await asyncio.sleep(0)
+            try:
+                async with term.map_fmmu(p["logical"], p["write"]) as idx:
+                    t.events.append(("enter", k, idx,
+                                     list(term.fmmu_used)))
+                    for _ in range(p["hold"]):
+                        await asyncio.sleep(0)
+                    t.events.append(("exit", k, idx))
+            except (ValueError, IndexError) as ex:
+                t.events.append(("failed", k, type(ex).__name__,
+                                 list(term.fmmu_used)))
+        await asyncio.gather(*[user(k, p) for k, p in enumerate(plan_)])
+        return list(term.fmmu_used)
+    final = aio.run(main)
+    return plan_, t.events, final
+
+
+def check_concurrent(n, plan_, events, final):
+    live = {}          # fmmu index -> task
+    maxlive = 0
+    for e in events:
+        if e[0] == "enter":
+            _, k, idx, table = e
+            if not 0 <= idx < n:
+                return f"task {k} got FMMU index {idx} of {n}", maxlive
+            if idx in live:
+                return (f"task {k} was given FMMU {idx} while task "
+                        f"{live[idx]} still uses it"), maxlive
+            live[idx] = k
+            maxlive = max(maxlive, len(live))
+        elif e[0] == "exit":
+            _, k, idx = e
+            if live.get(idx) == k:
+                del live[idx]
+        elif e[0] == "fmmu":
+            fi, raw = e[1], e[2]
+            lstart, ln, lsb, leb, phys, pb, typ, act = struct.unpack(
+                "<IHBBHBBB", raw[:13])
+            if act & 1 and fi in live and \
+                    plan_[live[fi]]["logical"] != lstart:
+                return (f"FMMU {fi} reprogrammed for logical {lstart:#x} "
+                        f"while task {live[fi]} uses it"), maxlive
+        elif e[0] == "failed":
+            _, k, exn, table = e
+            if len(live) < (min(2, n) if plan_[k]["write"] else n) and \
+                    False:
+                pass     # failing with a free FMMU is not a violation
+    if any(v is not None for v in final):
+        return f"slot table {final} after all mappings ended", maxlive
+    return None, maxlive
+
+
 def run_shard(params):
     res = Result()
     n = params["n"]
+    if params.get("concurrent"):
+        import random
+        rng = random.Random(params["seed"] * 7919 + n)
+        sigs = set()
+        for _ in range(params["count"]):
+            plan_, events, final = run_concurrent(n, rng)
+            why, maxlive = check_concurrent(n, plan_, events, final)
+            order = tuple((e[0], e[1]) for e in events
+                          if e[0] in ("enter", "exit", "failed", "fmmu"))
+            sigs.add(hash(order))
+            desc = dict(fmmus=n, concurrent=plan_)
+            res.case(desc, nontrivial=maxlive >= 2)
+            res.count("concurrent_histories")
+            res.count("concurrent_outcome:failed",
+                      sum(1 for e in events if e[0] == "failed"))
+            res.count("concurrent_outcome:entered",
+                      sum(1 for e in events if e[0] == "enter"))
+            if why:
+                res.violation("unexplained:concurrent-" + why.split(" ")[0],
+                              f"{n} FMMUs, tasks {plan_}: {why}", case=desc,
+                              witness=[e[:3] for e in events
+                                       if e[0] != "write"][:40])
+        res.info["distinct_interleavings"] = len(sigs)
+        return res
     for seq in sequences(params["L"], params["first"]):
         trace, t = run_seq(n, seq)
         why, maxlive = check_trace(n, trace)
@@ -187,7 +290,8 @@ def run_shard(params):
 
 def finalize(res, tier, seed):
     c = res.counters
-    for k in ("outcome:opened", "outcome:failed", "outcome:closed"):
+    for k in ("outcome:opened", "outcome:failed", "outcome:closed",
+              "concurrent_outcome:entered", "concurrent_outcome:failed"):
         if not c.get(k):
             res.inconc(f"{k} never observed")
 
